@@ -458,7 +458,36 @@ var badDecimal = []string{".", "-.", "-. | .", "+.", ". .. .", "1.0..", "..2.5",
 	// a sign behind the point, a point too many
 	".-5", ".+5", "5.-", "+.-1", "1.-0", "1..2.3.4", "0.5..", "..5"}
 
+// surplus: decimal literals with more fraction digits than the type has, the surplus not all
+// zeros (zeros at the very end or not): they denote numbers the type cannot hold.
+var surplus = []struct {
+	s  string
+	fd uint8
+}{{"1.2340", 2}, {"1.20340", 3}, {"-0.0010", 2}, {"0.5010", 2}, {"1.234", 2}, {"9.90909090", 1}, {"0.10", 1}, {"1.2340..2", 2}, {"0..5.0011", 3}, {"-1.050|2", 1}}
+
 func Malformed(j *job.Job, s *job.Sink) {
+	if j.Shard == 0 {
+		for i, c := range surplus {
+			s.Count("malformed", 1)
+			if c.s == "0.10" {
+				// (control: zeros only beyond the precision, this one is fine)
+				if _, err := yang.ParseRangesDecimal(c.s, c.fd); err != nil {
+					s.Violation(int64(1000+i), j.CaseID(int64(1000+i)), "C10.malformed", "rejects-valid", fmt.Sprintf("ParseRangesDecimal(%q, %d): %v", c.s, c.fd, err), map[string]string{"restriction": c.s}, nil)
+				}
+				continue
+			}
+			if got, err := yang.ParseRangesDecimal(c.s, c.fd); err == nil {
+				s.Violation(int64(1000+i), j.CaseID(int64(1000+i)), "C10.malformed", "accepts-malformed", fmt.Sprintf("ParseRangesDecimal(%q, %d) = %v: the literal has digits beyond the precision that are not zeros", c.s, c.fd, got), map[string]string{"restriction": c.s}, nil)
+			}
+			ms := yang.NewModules()
+			text := fmt.Sprintf("module m { namespace \"urn:m\"; prefix m; leaf l { type decimal64 { fraction-digits %d; range %q; } } }", c.fd, c.s)
+			if err := ms.Parse(text, "m.yang"); err == nil {
+				if errs := ms.Process(); len(errs) == 0 {
+					s.Violation(int64(1000+i), j.CaseID(int64(1000+i)), "C10.malformed", "schema-accepts-malformed", text, map[string]string{"restriction": c.s}, nil)
+				}
+			}
+		}
+	}
 	bad := []string{"", "|", "1|", "|1", "..", "1..", "..5", "1..2..3", "a", "1..b", "1.5", "1..2|", "1 2", "--1", "1-2", "1...5", "min..", "..max", "5..1", "1..5|3..2", "1,5", "0x", "1e3",
 		// sign forms: at most one sign, directly before the digits
 		"+-5..5", "0|+-3", "-+5", "++5", "+", "-", "- 5", "5-", "+-0x10..0", "1..+-2", "-", "1..-", "min..+", "-min", "+max",
